@@ -295,7 +295,8 @@ class PristineRef:
     @staticmethod
     def _compute(plan: dict, req: dict):
         segs = common.Segments(plan["seed"], "fifo")
-        w = World(plan, segs)
+        w = World(plan, segs, build_shared=False)  # nothing but the fresh twin is ever built here
+        w.t0 = req["t0"]
         simclock.CLOCK.now = req["now"]
         ei = req["ei"]
         w.env_events[ei] = [tuple(e) for e in req["events"]]
@@ -307,7 +308,7 @@ class PristineRef:
 
     def ask(self, w, ei: int, step: dict):
         self.asked += 1
-        self._write_msg(self.req_w, {"now": w.clock.now, "ei": ei, "events": w.env_events[ei],
+        self._write_msg(self.req_w, {"now": w.clock.now, "t0": w.t0, "ei": ei, "events": w.env_events[ei],
                                      "hspec": {str(k): v for k, v in w.hspec.items()}, "step": step})
         rep = self._read_msg(self.rep_r)
         if rep is None:
@@ -355,7 +356,7 @@ class Inst:
 
 
 class World:
-    def __init__(self, plan: dict, segs: common.Segments) -> None:
+    def __init__(self, plan: dict, segs: common.Segments, build_shared: bool = True) -> None:
         self.plan = plan
         self.segs = segs
         self.clock = simclock.CLOCK
@@ -369,8 +370,9 @@ class World:
         self.last_data = None
         self.probe_before: dict[int, list] | None = None
         self.t0 = self.clock.now
-        for i in range(len(plan["envs"])):
-            self.build_env(self.shared, i)
+        if build_shared:
+            for i in range(len(plan["envs"])):
+                self.build_env(self.shared, i)
 
     def count(self, k: str, n: int = 1) -> None:
         self.counters[k] = self.counters.get(k, 0) + n
@@ -548,7 +550,7 @@ class World:
                             got=_short(got), expected=_short(exp))
         self.count("diff_ok")
         # oracle 6: the same call in a process that has never rendered
-        if self.pristine is not None:
+        if self.pristine is not None and self.pristine.asked < 10 and not label.startswith(("sweep-", "after-")):
             exp2 = self.pristine.ask(self, ei, step)
             if json.loads(json.dumps(_listify(got), default=str)) != exp2:
                 raise Violation("differs_from_pristine_process", step=step["id"], op=step["op"], label=label,
@@ -946,16 +948,16 @@ def gen_plan(seed: int, tier: str) -> dict:
         dg = envs[ei].get("default_global")
         if r < 0.5:
             prog = rng.choice(list(STATEFUL))
-            if dg and prog in NEEDS_PARTIALS:
-                prog = "counters"
+            if dg and (prog in NEEDS_PARTIALS or rng.random() < 0.5):
+                prog = rng.choice(["gvprobe", "gvprobe", "counters", "condmacro"])
             st = {"op": "parse", "id": nid(), "h": hid, "env": ei, "src": STATEFUL[prog][0], "prog": prog}
         elif r < 0.8 or dg:
             st = {"op": "parse", "id": nid(), "h": hid, "env": ei, "src": rng.choice(gen_progs), "prog": "gen"}
         else:
             names = list(envs[ei]["partials"])
             st = {"op": "get", "id": nid(), "h": hid, "env": ei, "name": rng.choice(names), "prog": "partial"}
-        if rng.random() < 0.25:
-            st["globals"] = {"gv": rng.choice(["G1", "G2"]), "shared": {"list": [1, 2], "n": 1}}
+        if rng.random() < (0.5 if dg else 0.25):
+            st["globals"] = {"gv": rng.choice(["G1", "G2"]), "shared": {"list": [1, 2], "n": rng.choice([1, 2])}}
         if rng.random() < 0.2 and st["op"] == "parse":
             st["name"] = rng.choice(["main", "dir/page.html"])
         steps.append(st)
@@ -1009,13 +1011,15 @@ def gen_plan(seed: int, tier: str) -> dict:
                           "cap": 12 if tier == "quick" else 64})
         else:
             prog = rng.choice([p for p in STATEFUL if p not in NEEDS_PARTIALS])
+            if rng.random() < 0.4:
+                prog = "gvprobe"
             steps.append({"op": "oneshot", "id": nid(), "src": STATEFUL[prog][0], "prog": prog,
                           "mode": rng.choice("sa"), "data": data_spec()})
     # bounded recovery: every handle rendered once more, unfaulted
     for hid, _ in handles:
         steps.append({"op": "render", "id": nid(), "h": hid, "mode": "s", "data": data_spec()})
     return {"property": PROP, "seed": seed, "policy": rng.choice(simsched.POLICIES), "envs": envs, "steps": steps,
-            "pristine_ref": rng.random() < 0.5}
+            "pristine_ref": rng.random() < 0.4}
 
 
 class Engine:
